@@ -75,10 +75,12 @@ Definition refresh (g : pgraph) (n : node) : pgraph :=
       else
         match shape_source g (n_ins n) with
         | None => g
-        | Some src =>
-            let g1 := match pg_shape g src with Some s => set_shape g y s | None => g end in
-            let cands := flat_map (fun x => match pg_shape g1 x with Some s => [s] | None => [] end) (n_ins n) in
-            match broadcast_dims cands with None => g1 | Some m => set_shape g1 y m end
+        | Some _ =>
+            (* an operand of unknown shape: nothing is written; otherwise the broadcast of ALL operand shapes *)
+            match mapM (pg_shape g) (n_ins n) with
+            | None => g
+            | Some cands => match broadcast_dims cands with None => g | Some m => set_shape g y m end
+            end
         end
   end.
 
